@@ -108,7 +108,20 @@ pub fn generate(seed: u64, g: &GenCtx) -> Scenario {
             sources.len() - 1
         })
     };
-    let pool: Vec<usize> = (0..pool_n).map(|_| intern(g.pick_source(&mut rng), &mut sources)).collect();
+    // after the first pick the others are often catalogue neighbours of it (prefixes /
+    // variants of the same program), so that concurrent calls run the same code paths
+    let first_cat = g.pick_source(&mut rng);
+    let mut pool: Vec<usize> = vec![intern(first_cat, &mut sources)];
+    for _ in 1..pool_n {
+        let c = if rng.chance(1, 2) {
+            let n = g.cat.sources.len();
+            let cand = (first_cat + rng.below(17) as usize).saturating_sub(8).min(n - 1);
+            if g.exclude.contains(&g.cat.sources[cand].id) { g.pick_source(&mut rng) } else { cand }
+        } else {
+            g.pick_source(&mut rng)
+        };
+        pool.push(intern(c, &mut sources));
+    }
 
     let mut clients = Vec::new();
     for _ in 0..n_clients {
